@@ -10,6 +10,7 @@ from .. import weaver_common as W
 from .. import rfa_common as R
 
 ID = "C02"
+THREADS = True       # part of the cases run concurrently in threads of one interpreter (the schedule dimension)
 MODULES = ["TWV.Properties.C02", "TWV.Tie.Funfit"]
 TRANSLATORS = ["t1_funfit"]
 RULE = ("pipelines Weaver(x, y)[.append_one_sample(p)].recreate_from_average(n, C, **kw).integral_match(target, 'rectangle') "
